@@ -124,6 +124,16 @@ def run(ctx: Ctx) -> None:
         bad_w = [s for s in states if "waiting" in s and "discarded" not in s]
         ctx.ob("C11.R2", cx, f"{name}: handler {reg_args} unregistered", not bad_h, "the response handler stays registered after the call has ended")
         ctx.ob("C11.R2", cx, f"{name}: waiter {fut} discarded", not bad_w, "the future stays in the set the closer iterates")
+    # the request's timeout timer is released on every exit too (cancelled, or it has fired)
+    from .c08 import local_timers, timer_exit_states
+
+    tms = [(fn, arm, h) for fn, arm, h in local_timers(ctx) if fn is cx]
+    ctx.count("C11.R2.timer", len(tms), 1, "timeout timers armed by the request function")
+    for fn, arm, h in tms:
+        states, gt = timer_exit_states(ctx, fn, arm, h)
+        bad = [(ex, s) for ex, s in states if "armed" in s and "cancelled" not in s and "fired" not in s]
+        kinds = sorted({"exceptional exit (cancellation / connection closed)" if ex is gt.raise_exit else "normal exit" for ex, s in bad})
+        ctx.ob("C11.R2", cx, f"request timer {h} cancelled (or fired) on every exit", not bad, f"a timer is left behind on: {', '.join(kinds)}", node=arm)
     # idempotent removal
     rem_calls = [c for c in own_nodes(unreg.node) if isinstance(c, ast.Call) and isinstance(c.func, ast.Attribute) and c.func.attr in ("discard", "remove")]
     ctx.ob("C11.R2", unreg, "handler removal is idempotent (discard)", bool(rem_calls) and all(c.func.attr == "discard" for c in rem_calls), "remove() raises when the handler is already gone (double removal after a close)")
